@@ -86,7 +86,7 @@ def _hexsize(n, upper, lead0):
 def _chunked(c1, c2, nchunks, lf_only, upper, lead0, ext, trailer, trunc, cuts):
     eol = b'\n' if lf_only else b'\r\n'
     c1, c2 = fixlen(c1, 3), fixlen(c2, 2)
-    trunc = realize_int(trunc, -1, 90)
+    trunc = realize_int(trunc, -1, 110)
     chunks = [c for c in [c1, c2][:nchunks] if len(c) > 0]
     wire = b'HTTP/1.1 200 OK' + eol + b'Transfer-Encoding: chunked' + eol + eol
     body = b''
@@ -94,7 +94,8 @@ def _chunked(c1, c2, nchunks, lf_only, upper, lead0, ext, trailer, trunc, cuts):
         wire = wire + _hexsize(len(c), upper, lead0) + (b';x=y' if ext else b'') + eol + c + eol
         body = body + c
     last_chunk_line_end = len(wire) + len(_hexsize(0, upper, lead0)) + (4 if ext else 0) + len(eol)
-    wire = wire + _hexsize(0, upper, lead0) + (b';x=y' if ext else b'') + eol + (b'T: v' + eol if trailer else b'') + eol
+    # trailer section: one field, folded over a continuation line that carries only white space, then a second field
+    wire = wire + _hexsize(0, upper, lead0) + (b';x=y' if ext else b'') + eol + (b'T: v' + eol + b' \t' + eol + b'U: w' + eol if trailer else b'') + eol
     full = len(wire)
     truncated = 0 <= trunc < full
     if truncated:
@@ -356,8 +357,8 @@ HARNESSES = [
       doc='Content-Length framing, symbolic body bytes and read cuts: body == first CL bytes; a shorter stream is an error; surplus is cut '
           'off, not reported as read, and the connection closed'),
     H('chunked', '_chunked', 'c1: bytes, c2: bytes, nchunks: int, lf_only: bool, upper: bool, lead0: bool, ext: bool, trailer: bool, trunc: int, ' + _CUTS,
-      pre={'quick': ['len(c1) <= 2 and len(c2) <= 1 and 0 <= nchunks <= 2 and -1 <= trunc <= 70 and len(cuts) <= 1'],
-           'thorough': ['len(c1) <= 3 and len(c2) <= 2 and 0 <= nchunks <= 2 and -1 <= trunc <= 80 and len(cuts) <= 3']},
+      pre={'quick': ['len(c1) <= 2 and len(c2) <= 1 and 0 <= nchunks <= 2 and -1 <= trunc <= 90 and len(cuts) <= 1'],
+           'thorough': ['len(c1) <= 3 and len(c2) <= 2 and 0 <= nchunks <= 2 and -1 <= trunc <= 100 and len(cuts) <= 3']},
       parts={'quick': [{'tag': 'n%d_%s' % (n, tag), 'fix': dict(nchunks=str(n), **fx)} for n in (1, 2) for tag, fx in (
                           ('plain', dict(lf_only='False', upper='False', lead0='False', ext='False', trailer='False')),
                           ('ext_trailer_lead0', dict(lf_only='False', upper='True', lead0='True', ext='True', trailer='True')),
